@@ -1,5 +1,6 @@
 import PonyVerif.Drive.Util
 import PonyVerif.Model.ForkPool
+import PonyVerif.Drive.OraJson
 namespace PonyVerif.Drive.C36
 open Lean PonyVerif.Drive PonyVerif.Model.ForkPool
 
@@ -42,6 +43,7 @@ def parseEv (j : Json) : Except String Ev := do
   | .arr #[.str "act", p, .str a] => pure (.act (← fromJson? p) (← parseAct a))
   | _ => throw "event: [\"fork\", p] or [\"act\", p, name]"
 
+
 def handle (j : Json) : Except String Json := do
   let op ← argStr j "op"
   match op with
@@ -59,5 +61,8 @@ def handle (j : Json) : Except String Json := do
         ("closed", .arr (w.closed.map jPair).toArray), ("attrErrors", .num (JsonNumber.fromNat w.attrErrors)),
         ("assertErrors", .num (JsonNumber.fromNat w.assertErrors)), ("forkWhileHeld", .bool w.forkWhileHeld),
         ("staleDisconnect", .bool w.staleDisconnect)])
+  | "ora" =>
+      let evs ← (← argArr j "events").mapM PonyVerif.Drive.OraJson.parseEv
+      pure (PonyVerif.Drive.OraJson.runJson evs)
   | _ => throw s!"unknown op {op}"
 end PonyVerif.Drive.C36
